@@ -412,7 +412,12 @@ def gen_pep(rng, cfg: GenCfg) -> Pep:
             if rng.random() < 0.6:
                 used.update(targets)    # otherwise a later rule may name the same target again (rules accumulate)
             mods = gen_mods(rng, cfg, context='<>', allow_mult=False, weights=cfg.static_weights or cfg.weights)
-            p.static.append(Rule(mods, targets))
+            spelling = {}
+            for t in targets:
+                if t in ('N-Term', 'C-Term') and rng.random() < 0.35:
+                    # ProForma writes 'N-term' / 'C-term'; the targets are case-insensitive keywords
+                    spelling[t] = rng.choice([t[0] + '-term', t[0] + '-term', t.lower(), t.upper()])
+            p.static.append(Rule(mods, targets, spelling))
     if rng.random() < cfg.p_isotope and cfg.labels:
         labs = rng.sample(cfg.labels, rng.choice([1, 1, 2]))
         # at most one label per element
